@@ -25,6 +25,7 @@ var theRepo string
 func emitRest(dir string, t *Tables) {
 	emitSplit(dir, thePkg)
 	emitWalk(dir, thePkg)
+	emitBuild(dir, thePkg)
 	emitEffects(dir, thePkg)
 	emitSchema(dir, thePkg, theRepo)
 	emitRules(dir, t)
